@@ -45,23 +45,25 @@ const c20TokenKey = "verif-c20-token-key-0123456789"
 
 // VerifC20Engine holds the server-side state shared by all cases of one run.
 type VerifC20Engine struct {
-	rnd      *rand.Rand
-	cases    *verifh.Writer
-	fails    *verifh.Writer
-	stats    *verifh.Stats
-	hash     map[string]string // user -> bcrypt(cost 4) of the pool password
-	token    map[string]string // user -> valid native token
-	tokenID  map[string]uuid.UUID
-	expired  string              // correctly encrypted token whose Expires is in the past (alice)
-	tampered string              // alice's token with one ciphertext nibble changed
-	revoked  string              // a valid token of bob whose id is on the blacklist
-	db       map[string][]string // current user database: user -> permissions
-	want     []string            // permissions the current route declares (steers databases and scopes)
-	distinct map[string]bool
-	budget   int // remaining expensive (Argon2) credential evaluations
-	jwt      *c20JWT
-	nfail    int
-	perClass map[string]int
+	rnd       *rand.Rand
+	cases     *verifh.Writer
+	fails     *verifh.Writer
+	stats     *verifh.Stats
+	hash      map[string]string // user -> bcrypt(cost 4) of the pool password
+	token     map[string]string // user -> valid native token
+	tokenID   map[string]uuid.UUID
+	expired   string              // correctly encrypted token whose Expires is in the past (alice)
+	tampered  string              // alice's token with one ciphertext nibble changed
+	revoked   string              // a valid token of bob whose id is on the blacklist
+	db        map[string][]string // current user database: user -> permissions
+	want      []string            // permissions the current route declares (steers databases and scopes)
+	distinct  map[string]bool
+	budget    int // remaining expensive (Argon2) credential evaluations
+	jwt       *c20JWT
+	nfail     int
+	perClass  map[string]int
+	seqBudget int      // remaining Argon2 evaluations for the request sequences
+	history   []string // steps of the running request sequence (zz_verif_c20_seq.go); empty outside sequences
 }
 
 // NewVerifC20Engine prepares the user database, the token key, the blacklist store, tokens of
